@@ -48,6 +48,10 @@ type FileRunner struct {
 	saved   []byte
 	Oracle  []string
 	lastLog int64
+	// far mode (C11): the file begins with `base` blocks of nothing (a sparse region), so that everything
+	// appended lies beyond 4 GiB; block ids and sizes are reported relative to the base, which makes the
+	// script comparable with the model run at offset 0
+	base uint32
 }
 
 type writtenRec struct {
@@ -113,9 +117,23 @@ func (r *FileRunner) Exec(f []string) (res string) {
 			r.suffix = datafile.HintFileSuffix
 		}
 		r.poss, r.written, r.staged, r.damaged = nil, nil, nil, false
+		r.base = 0
 		_ = os.Remove(r.path())
 		if err := r.reopen(); err != nil {
 			return "err " + ErrName(err)
+		}
+		return ""
+	case "far":
+		r.Close()
+		r.base = uint32(atou(f[2]))
+		if err := os.Truncate(r.path(), int64(r.base)*bs); err != nil {
+			return "err truncate"
+		}
+		if err := r.reopen(); err != nil {
+			return "err " + ErrName(err)
+		}
+		if got := r.df.Size(); got != int64(r.base)*bs {
+			r.fail("a file of %d blocks (%d bytes) was opened with logical size %d", r.base, int64(r.base)*bs, got)
 		}
 		return ""
 	case "put":
@@ -126,6 +144,7 @@ func (r *FileRunner) Exec(f []string) (res string) {
 		if err != nil {
 			return "err " + ErrName(err)
 		}
+		p.BlockID -= r.base
 		r.poss = append(r.poss, [2]uint32{p.BlockID, p.Offset})
 		r.written = append(r.written, writtenRec{rec.Type, k, v, rec.BatchID, p.BlockID, p.Offset, p.Size})
 		return fmt.Sprintf("%d %d %d", p.BlockID, p.Offset, p.Size)
@@ -154,6 +173,7 @@ func (r *FileRunner) Exec(f []string) (res string) {
 			r.fail("flush returned %d positions for %d staged records", len(ps), len(r.staged))
 		}
 		for i, p := range ps {
+			p.BlockID -= r.base
 			fmt.Fprintf(&sb, " %d %d %d", p.BlockID, p.Offset, p.Size)
 			r.poss = append(r.poss, [2]uint32{p.BlockID, p.Offset})
 			if i < len(r.staged) {
@@ -165,7 +185,7 @@ func (r *FileRunner) Exec(f []string) (res string) {
 		r.staged = nil
 		return sb.String()
 	case "size":
-		return fmt.Sprintf("%d", r.df.Size())
+		return fmt.Sprintf("%d", r.df.Size()-int64(r.base)*bs)
 	case "close":
 		logical := r.df.Size()
 		r.Close()
@@ -176,7 +196,7 @@ func (r *FileRunner) Exec(f []string) (res string) {
 		if st.Size() != logical {
 			r.fail("logical size %d != physical size %d after Close", logical, st.Size())
 		}
-		return fmt.Sprintf("%d", st.Size())
+		return fmt.Sprintf("%d", st.Size()-int64(r.base)*bs)
 	case "reopen":
 		if len(f) > 2 {
 			r.io = fio.FileIOType(atoi(f[2]))
@@ -184,7 +204,7 @@ func (r *FileRunner) Exec(f []string) (res string) {
 		if err := r.reopen(); err != nil {
 			return "err " + ErrName(err)
 		}
-		return fmt.Sprintf("%d", r.df.Size())
+		return fmt.Sprintf("%d", r.df.Size()-int64(r.base)*bs)
 	case "bytes":
 		b, err := os.ReadFile(r.path())
 		if err != nil {
@@ -258,8 +278,9 @@ func (r *FileRunner) Exec(f []string) (res string) {
 		}
 		return out
 	case "get":
-		p := &datafile.DataPos{Fid: r.fid, BlockID: uint32(atou(f[2])), Offset: uint32(atou(f[3]))}
+		p := &datafile.DataPos{Fid: r.fid, BlockID: uint32(atou(f[2])) + r.base, Offset: uint32(atou(f[3]))}
 		v, err := r.df.ReadRecordValue(p)
+		p.BlockID -= r.base
 		if !r.damaged {
 			for _, w := range r.written {
 				if w.bid == p.BlockID && w.off == p.Offset {
